@@ -552,6 +552,29 @@ func nameOf(f *types.Func) string {
 
 func c09Comparators(c *Ctx, p *Prog) {
 
+	// a plain number is read by the float parser, whole: in the function that also knows unit suffixes, the parse of the
+	// whole text comes first (it dominates the suffix match) — the suffix pattern is not anchored to signs and exponents,
+	// so tried first it reads -10 as 10 and 1e3 as 1
+	for _, fn := range p.Funcs("benchproc") {
+		var whole, sub ssa.Instruction
+		eachInstr(fn, func(_ *ssa.BasicBlock, in ssa.Instruction) {
+			call, ok := in.(*ssa.Call)
+			if !ok {
+				return
+			}
+			if objIs(calleeObj(&call.Call), "strconv", "", "ParseFloat") && len(fn.Params) > 0 && call.Call.Args[0] == ssa.Value(fn.Params[0]) && whole == nil {
+				whole = in
+			}
+			if co := calleeObj(&call.Call); co != nil && co.Pkg() != nil && co.Pkg().Path() == "regexp" && strings.HasPrefix(co.Name(), "Find") && sub == nil {
+				sub = in
+			}
+		})
+		if whole == nil || sub == nil {
+			continue
+		}
+		c.Check(instrDominates(whole, sub), "C09/R3", fnName(fn)+":plain-number-first", p.pos(whole.Pos()), "the whole text is tried as a float before the suffix pattern",
+			"the suffix pattern is tried before (or without) parsing the whole text as a float: the pattern matches a number inside the text, so signs and exponents are lost — -10 sorts as 10 and 1e3 as 1")
+	}
 	// numbers before non-numbers needs the number parser's verdict: wherever benchproc hands text to strconv's float
 	// or integer parser on the way to a comparator, the error result is read (compared with nil or returned)
 	nParse := 0
